@@ -7,7 +7,7 @@ from typing import List, Optional
 from .. import rx
 from ..collect import callee_is, run_paths
 from ..common import calls_in, construct, where
-from ..flow import Value, show, strparts, subterms
+from ..flow import NONE, Value, show, strparts, subterms
 from ..fold import Folder, NotConst
 from ..loader import AnalysisError, ClassInfo, FuncInfo, Program, walk_shallow
 from ..report import Report, Undecided
@@ -233,13 +233,15 @@ def run(p: Program, rep: Report, tier: str) -> None:
     # `!= "data"`, or data was removed from a private copy
     src_fn = ast.unparse(fn.node)
     ev = fn.params[0]
-    filters = [n for n in ast.walk(fn.node) if isinstance(n, ast.Compare) and len(n.ops) == 1 and isinstance(n.ops[0], (ast.NotEq, ast.Eq)) and any(isinstance(x, ast.Constant) and x.value == "data" for x in [n.left] + n.comparators)]
-    copies = [n for n in ast.walk(fn.node) if isinstance(n, ast.Assign) and isinstance(n.value, (ast.Call, ast.Dict)) and (
+    from ..common import with_helpers as _wh19
+    _unit19 = ast.Module(body=[f_.node for f_ in _wh19(p, fn)], type_ignores=[])  # the encoder with the private helpers it reaches
+    filters = [n for n in ast.walk(_unit19) if isinstance(n, ast.Compare) and len(n.ops) == 1 and isinstance(n.ops[0], (ast.NotEq, ast.Eq)) and any(isinstance(x, ast.Constant) and x.value == "data" for x in [n.left] + n.comparators)]
+    copies = [n for n in ast.walk(_unit19) if isinstance(n, ast.Assign) and isinstance(n.value, (ast.Call, ast.Dict)) and (
         (isinstance(n.value, ast.Call) and isinstance(n.value.func, ast.Name) and n.value.func.id == "dict" and n.value.args and isinstance(n.value.args[0], ast.Name) and n.value.args[0].id == ev)
         or (isinstance(n.value, ast.Dict) and any(k is None and isinstance(v_, ast.Name) and v_.id == ev for k, v_ in zip(n.value.keys, n.value.values))))]
     copy_names = {t.id for n in copies for t in n.targets if isinstance(t, ast.Name)}
     muts = []
-    for n in ast.walk(fn.node):
+    for n in ast.walk(_unit19):
         if isinstance(n, ast.Call) and isinstance(n.func, ast.Attribute) and n.func.attr in ("pop", "popitem", "clear", "update", "setdefault", "__delitem__", "__setitem__") and isinstance(n.func.value, ast.Name) and n.func.value.id == ev:
             muts.append(n)
         elif isinstance(n, ast.Delete) and any(isinstance(t, ast.Subscript) and isinstance(t.value, ast.Name) and t.value.id == ev for t in n.targets):
@@ -339,17 +341,65 @@ def run(p: Program, rep: Report, tier: str) -> None:
                 rep.ok("R19.4", f"{side}: required headers Content-Type text/event-stream, Cache-Control no-cache")
             else:
                 rep.violation("R19.4", construct(cls, text=f"required_headers {sorted(low.items())}"), cls.loc, f"{side}: required event-stream headers are wrong: {low}")
-        src = ast.unparse(init.node)
-        if "{**self.required_headers, **headers}" in src:
+        # the constructor, decided on its paths (module-level helpers of baize.responses inlined): what is handed to the base
+        # initialiser as headers, what is stored into its Content-Type, what self.charset becomes
+        from ..collect import default_inline as _dinl
+
+        _pol = lambda fi: _dinl(fi) or (fi.cls is None and fi.parent is None and fi.module.name == "baize.responses" and not fi.is_generator())  # noqa: E731
+        try:
+            ipaths, _ic, _ii = run_paths(p, init, cls, inline=_pol)
+        except Exception as e_:
+            rep.undecide("R19.4", f"{side}: SendEventResponse.__init__ is not analysable ({e_})")
+            continue
+        rep.cfg_paths += len(ipaths)
+        SELF_ = ("param", "self")
+        REQ = ("attr", SELF_, "required_headers")
+        hp = init.params[3] if len(init.params) > 3 else "headers"
+        HDRS = ("param", "headers") if "headers" in init.params else ("param", hp)
+        merge_ok = merge_bad = cs_ok = cs_bad = chs_ok = chs_bad = 0
+        for pa in ipaths:
+            if pa.exit != "return":
+                continue
+            base = [e for e in pa.events if e.kind == "call" and e.a[0] == "func" and e.a[1].endswith(".__init__")]
+            if len(base) != 1:
+                merge_bad += 1
+                continue
+            e0 = base[0]
+            kw0 = dict(e0.c or ())
+            H = kw0.get("headers", e0.b[2] if len(e0.b) > 2 else None)
+            given = (HDRS, True) in pa.facts
+            absent = (HDRS, False) in pa.facts or (("cmp", "Is", HDRS, NONE), True) in pa.facts
+            if H is None:
+                merge_bad += 1
+            elif given and H[0] == "dict" and [k for k, _v in H[1]] == [None, None] and [v for _k, v in H[1]] == [REQ, HDRS]:
+                merge_ok += 1
+            elif absent and ((H[0] == "call" and H[1] == ("builtin", "dict") and H[2] == (REQ,)) or (H[0] == "dict" and [kv for kv in H[1]] == [(None, REQ)])
+                             or (H[0] == "call" and H[1] == ("attr", REQ, "copy"))):
+                merge_ok += 1
+            elif not given and not absent and H[0] == "dict" and [k for k, _v in H[1]] == [None, None] and [v for _k, v in H[1]][0] == REQ:
+                merge_ok += 1  # {**required, **(headers or {})}
+            else:
+                merge_bad += 1
+            ct = [e for e in pa.events if e.kind == "store" and e.a[0] == "sub" and e.a[1] == H and e.a[2][0] == "const" and str(e.a[2][1]).lower() == "content-type"]
+            parts_ = strparts(ct[-1].b) if ct else None
+            if parts_ and len(parts_) == 3 and parts_[0] == ct[-1].a and parts_[1] == ("const", "; charset=") and parts_[2] == ("param", "charset"):
+                cs_ok += 1
+            else:
+                cs_bad += 1
+            sc_ = [e for e in pa.events if e.kind == "store" and e.a == ("attr", SELF_, "charset")]
+            if sc_ and sc_[-1].b == ("param", "charset"):
+                chs_ok += 1
+            else:
+                chs_bad += 1
+        if merge_ok and not merge_bad:
             rep.ok("R19.4", f"{side}: user headers override the required ones ({{**required, **headers}})")
         else:
             rep.violation("R19.4", construct(init, text="header merge"), where(init), f"{side}: required headers are not merged as {{**self.required_headers, **headers}}")
-        aug = [n for n in walk_shallow(init.node) if isinstance(n, ast.AugAssign) and "Content-Type" in ast.unparse(n.target)]
-        if aug and ast.unparse(aug[0].value).replace('"', "'") == "f'; charset={charset}'":
+        if cs_ok and not cs_bad:
             rep.ok("R19.4", f"{side}: the charset parameter is appended to Content-Type")
         else:
             rep.violation("R19.4", construct(init, text="charset in content-type"), where(init), f"{side}: the charset used for encoding is not announced in Content-Type")
-        if any(isinstance(n, ast.Assign) and ast.unparse(n.targets[0]) == "self.charset" and ast.unparse(n.value) == "charset" for n in walk_shallow(init.node)):
+        if chs_ok and not chs_bad:
             rep.ok("R19.4", f"{side}: self.charset = charset")
         else:
             rep.violation("R19.4", construct(init, text="self.charset"), where(init), f"{side}: the charset given to the constructor is not the one used for encoding")
